@@ -924,10 +924,10 @@ pub trait VolatileMemory {
     fn get_slice(&self, offset: usize, count: usize) -> (r: Result<VolatileSlice<<Self::B as Bitmap>::S>>)
         requires self.vm_wf(),
         ensures
-            r is Ok ==> r.unwrap().wf(), // [C01]
+            r is Ok ==> r.unwrap().wf(), // [C01,C17]
             self.vm_exact() && offset + count <= self.vm_len() ==> r is Ok, // [C01,C02,C04,C18]
             self.vm_exact() && offset + count > self.vm_len() ==> r is Err, // [C01]
-            self.vm_exact() && r is Ok ==> self.vm_sub(&r.unwrap(), offset as int, count as int) && r.unwrap().size == count, // [C01,C04,C05]
+            self.vm_exact() && r is Ok ==> self.vm_sub(&r.unwrap(), offset as int, count as int) && r.unwrap().size == count, // [C01,C04,C05,C17]
     ;
 
 //@fn src/volatile_memory.rs :: pub trait VolatileMemory :: is_empty :: tags=C01
